@@ -413,7 +413,7 @@ def names_section(rep, rng, tier):
 
 
 impl_stub = make_impl(lambda case: (lambda: P.stub_parser(case)))
-impl_real = make_impl(lambda case: P.real_parser)
+impl_real = make_impl(lambda case: (lambda: P.real_parser(case)))
 SECTIONS = {'interleave': impl_stub, 'interleave-real': impl_real}
 
 
